@@ -119,6 +119,9 @@ def run(F, R):
     # recycles a free descriptor and unshares its buffer a second time
     from .C19 import poll_rule
     poll_rule(F, R, 'T10')
+    # T11: no access past the MMIO region: the configuration window built from a (pointer, size) region description ends inside it (C13.G7)
+    from .C13 import g7_region_window
+    g7_region_window(F, R, rule='T11')
     if 'device::gpu::VirtIOGpu' in F.adts:
         from . import C05 as _c5
         from .C20 import z3_z4_gpu
